@@ -7,6 +7,7 @@
      nset val | nget key                      a cached native setting: Policy.setFeePerByte(val) under the committee
                                               witness / store Policy.getFeePerByte() under key
      xfer amt                                 GAS.transfer(self -> plain account "sink", amt)
+     deploy d                                 ContractManagement.deploy of the tiny child contract number d
      throw | vmthrow                          THROW / a VM-raised catchable exception (PICKITEM out of range)
      abort                                    ABORT (uncatchable)
      call c fl body                           System.Contract.Call of a method of contract c with call flags fl;
@@ -56,7 +57,7 @@ Ok(S)    == [S |-> S, out |-> "ok"]
 Abort(S) == [S |-> S, out |-> "abort"]
 Throw(S) == [S |-> [S EXCEPT !.pend = TRUE], out |-> "throw"]
 
-CallLike(s) == s.k \in {"call", "pay", "nset", "nget", "xfer"}
+CallLike(s) == s.k \in {"call", "pay", "nset", "nget", "xfer", "deploy"}
 
 RECURSIVE Block(_, _, _), Stmt(_, _, _), Fin(_, _, _, _)
 
@@ -92,6 +93,10 @@ Stmt(s0, env, S0) ==
             IF me >= 0 /\ HasAll(env.fl, 15)
             THEN Ok([S EXCEPT !.bal[me] = @ - s.amt, !.sink = @ + s.amt,
                               !.notes = Append(@, TransferNote(CName(me), "sink", s.amt))])
+            ELSE Abort(S)
+      [] s.k = "deploy" ->            \* "contract already exists" is a native panic: uncatchable
+            IF me >= 0 /\ HasAll(env.fl, 15) /\ s.d \notin S.dep
+            THEN Ok([S EXCEPT !.dep = @ \cup {s.d}, !.ndep = @ + 1, !.notes = Append(@, <<"mgmt", s.d, "", "">>)])
             ELSE Abort(S)
       [] s.k \in {"throw", "vmthrow"} -> Throw(S)
       [] s.k = "abort" -> Abort(S)
